@@ -12,7 +12,8 @@ RULE = ("case = 1-2 watchers + behaviour tape + <= 30 ops from {incr, decr, "
         "set numprocesses, restart, reload, stop, start, rm, config-file edits "
         "(watcher added / removed / changed, [circus] changed) + "
         "reloadconfig in a third of the cases, an on-demand watcher on a real "
-        "managed socket with client connections in a quarter, worker exit with any "
+        "managed socket with client connections in a quarter, hooks with "
+        "true / false / raising outcomes in a third, worker exit with any "
         "status 0..255 or terminating signal, death at the k-th next kernel "
         "call, periodic check, loop step, time advance}; the PUB frames are "
         "parsed after every op and at the settled end.  Non-trivial = the "
@@ -61,7 +62,7 @@ def execute(case):
                     viols.append(Violation(
                         'C09:duplicate-reap', 'second reap event for pid %r'
                         % pid))
-                if pid not in spawned:
+                if pid not in spawned and pid not in rejected():
                     viols.append(Violation(
                         'C09:reap-before-spawn', 'reap event for pid %r '
                         'without a preceding spawn event' % pid))
@@ -74,6 +75,20 @@ def execute(case):
             elif ev in ('start', 'stop'):
                 last_life[wname] = ev
         seen[0] = len(evs)
+
+    ignore_flag = dict(
+        (wc["name"], bool((wc.get("hooks") or {}).get(
+            "after_spawn", [None, False])[1]))
+        for wc in case["watchers"])
+
+    def rejected():
+        """pids whose after_spawn hook answered false: never adopted, they
+        are terminated without having been announced."""
+        return set(e["kw"].get("pid") for e in h.hook_log
+                   if e["hook"] == 'after_spawn' and (
+                       e["outcome"] in ('false', 'none', 'zero') or
+                       (e["outcome"] == 'raise' and
+                        not ignore_flag.get(e["watcher"]))))
 
     orphaned = set()     # pids of watchers removed with nostop: deliberately
                          # left alone and no longer reported
@@ -182,7 +197,7 @@ def replay(case):
 def _strategy():
     return lifecycle_cases(statuses_full=True, respawn_false=True,
                            kill_cmd=True, set_other=True, rm=True,
-                           config=True, ondemand=True)
+                           config=True, ondemand=True, hooks=True)
 
 
 def plan(tier, seed):
